@@ -199,11 +199,11 @@ PROPS = {
     ),
     "C04": dict(
         title="Writer and reader agree on record positions (random access)",
-        lean_modules=["Gowarc.Props.C04", "Gowarc.Props.C04junk", "Gowarc.Props.C04reads"],
+        lean_modules=["Gowarc.Props.C04", "Gowarc.Props.C04junk", "Gowarc.Props.C04reads", "Gowarc.Props.C04skel"],
         audit_namespaces=["Gowarc.Props.C04"],
         n_quick=1500, n_thorough=12000,
         required_theorems=["C04_inv", "C04_tracked_size", "C04_offset", "C04_offset_stable", "C04_sequential", "C04_junk", "core_frame", "unmarshal_eq_core", "step_grows", "write_inv", "close_inv", "writeFailed_inv", "writeFailed_eq", "C04_offset_reads_back", "reads_at",
-                           "C04_seg_offset", "writeSeg_inv", "writeSeg_state", "write_grows"],
+                           "C04_seg_offset", "writeSeg_inv", "writeSeg_state", "write_grows", "C04_writer_skeleton"],
         model_assumptions=["write histories include records the marshaler fails on (op `failed`: the fit test and a file creation happen, nothing of the record stays in the file); the harness makes the marshaler fail before the first byte, inside the header, inside the block and after the whole record",
                            "member bytes (the marshaler's and the compressor's output) are data: the harness measures each member's length on disk and hands it to the model; everything the writer decides is modelled",
                            "C04_sequential is stated for any self-delimiting codec (dec (enc x ++ rest) = some (x, rest)); that gowarc's marshal/gzip and unmarshal form such a codec is checked by the read-back oracle (independent scanner, fresh reader at every offset, sequential reader under three source behaviours), not proved",
@@ -218,10 +218,10 @@ PROPS = {
     ),
     "C13": dict(
         title="Rotation, naming and warcinfo invariants of written files",
-        lean_modules=["Gowarc.Props.C13", "Gowarc.Props.C13names", "Gowarc.Props.C13seg"],
+        lean_modules=["Gowarc.Props.C13", "Gowarc.Props.C13names", "Gowarc.Props.C13seg", "Gowarc.Props.C04skel"],
         audit_namespaces=["Gowarc.Props.C13"],
         n_quick=1500, n_thorough=12000,
-        required_theorems=["C13_info", "C13_no_info", "C13_names", "C13_callback", "C13_fit", "run_inv13", "failed_inv13", "C13_seg_fit", "write_size",
+        required_theorems=["C13_info", "C13_no_info", "C13_names", "C13_callback", "C13_fit", "run_inv13", "failed_inv13", "C13_seg_fit", "write_size", "C13_writer_skeleton",
                            "C13_generator_names_unique", "C13_next_name_differs", "default_name", "default_pattern_tokens", "pad_serial_injective"],
         model_assumptions=["as C04; in the writer model file names are identified with the serial number of the NewWarcfileName call that produced them (the writer scenarios use a counting generator); the real PatternNameGenerator and internal.Sprintt are modelled in Model/NameGen.lean and tied by kind `namegen` (default and custom patterns, flags 0 and -, widths, %s %d %v %%, custom parameters shadowed by built-in ones); C13_generator_names_unique: with the default pattern (regenerated from warcfile.go) names from different serials differ, for any prefix, extension, host and time stamps of equal length; int32 wrap-around of the serial and patterns outside the modelled grammar are outside the model; time formatting, host name and IP are inputs",
                            "a record is never split across files by construction of the model (files are lists of whole members); that the bytes on disk are such lists is judged by the independent scanner"],
@@ -264,11 +264,11 @@ PROPS = {
     ),
     "C12": dict(
         title="A killed writer leaves only complete final files and whole-record prefixes",
-        lean_modules=["Gowarc.Props.C12", "Gowarc.Props.C12link"],
+        lean_modules=["Gowarc.Props.C12", "Gowarc.Props.C12link", "Gowarc.Props.C04skel"],
         audit_namespaces=["Gowarc.Props.C12"],
         n_quick=40, n_thorough=600,
         required_theorems=["C12_all", "C12_shape", "C12_acked", "C12_final_complete", "C12_open", "members_run", "file_run", "files_run", "reachable_closed",
-                           "C12_log_is_run", "C12_ack_is_response", "step_log", "write_log"],
+                           "C12_log_is_run", "C12_ack_is_response", "step_log", "write_log", "C12_writer_skeleton"],
         model_assumptions=["the model's effect log is the writer's program order for one worker (create, member bytes, optional fsync, acknowledgement, close, rename); C12_log_is_run proves that it is exactly what the writer model of C04/C13 issues step by step along any run; that the implementation issues these effects in this order is what the strace comparison checks on every generated history; histories include records the marshaler fails on (op F: refused before the first byte, failing inside the header or block): their bytes are written and taken back by ftruncate, which the trace comparison folds away - every crash state in between is still judged",
                            "byte-granular kill points (one effect per byte) are a superset of the real ones (write syscalls of arbitrary chunking, including the compressor's)",
                            "process kill, not power loss: the kernel keeps completed writes and renames atomically; page cache loss is outside the property",
